@@ -9,8 +9,9 @@
   "the command name is ASCII" (Go lower-cases it with `strings.ToLower`, which
   is byte-wise only on ASCII; the model and the harness are restricted to the
   same domain). Arguments are arbitrary bytes.
-  Buffer sizes and read fragmentation are not in the theorems (bufio is in the
-  trusted base); they are exercised by the correspondence harness.
+  Buffer sizes and read fragmentation: Props/C12Frag.lean (the same decoder over a
+  model of bufio.Reader in front of a reader that cuts the stream into arbitrary
+  pieces computes exactly what the functions below compute on the plain bytes).
 -/
 import GunYu.Model.Resp
 import GunYu.Proofs.Decimal
